@@ -56,7 +56,12 @@ def weave(repo, out):
     lib.insert(first, "#![allow(unused_imports, unused_variables, dead_code, unused_mut, unused_braces, unused_parens)]\n"
                       "#[allow(unused_imports)] use vstd::prelude::*;\npub mod verif_prelude;\npub mod verif_specs;\n", rule="W1")
     W.add_file("verif_prelude.rs", open(os.path.join(VERIF, "specs", "prelude.rs")).read())
-    W.add_file("verif_specs.rs", concat_rs(sorted(glob.glob(os.path.join(VERIF, "specs", "vocab", "*.rs")))))
+    vocab = sorted(glob.glob(os.path.join(VERIF, "specs", "vocab", "*.rs")))
+    names = [os.path.basename(p)[:-3] for p in vocab]
+    W.add_file("verif_specs.rs", "//! specification vocabulary (pure ghost code), one submodule per file of /verif/specs/vocab\n"
+               + "".join("pub mod %s;\n#[allow(unused_imports)] pub use %s::*;\n" % (n, n) for n in names))
+    for p, n in zip(vocab, names):
+        W.add_file("verif_specs/%s.rs" % n, open(p).read())
     if os.path.isdir(out):
         shutil.rmtree(out)
     os.makedirs(os.path.join(out, "src"))
